@@ -44,6 +44,8 @@ class Dims:
         if k == "const":
             return None
         if k == "cast":
+            if t[2][0] == "op" and t[2][1] in ("Eq", "Ne", "Lt", "Le", "Not"):
+                return None   # `(cond) as usize`: a 0/1 literal, adopts the other side's dimension
             return self.of(t[2])
         if k == "call" and t[1] == "checked":
             return self.of(t[2][0])
